@@ -118,6 +118,18 @@ def run(ctx):
                 ctx.violation("fn=%s|callee=%s" % (short(n), short(c)), sp_file_line(t.get("sp")),
                               "result of `%s` is discarded in `%s`: a failed validation stage goes unnoticed"
                               % (short(c), short(n)))
+            # ... and inspected means obeyed: in a function that itself reports through a Result (the one-shot commands), the Err side of that
+            # Result never reaches an `Ok(..)` return - a failed stage that is looked at, printed and then followed by "Success" is check
+            # accepting what compile rejects
+            if "core::result::Result<" in str(f.d.get("output", "")) and not t["dest"].get("pr"):
+                okrets = {bb for bb, ii, ss in f.assigns() if ss["p"]["l"] == 0 and not ss["p"].get("pr") and ss["r"]["k"] == "agg" and ss["r"].get("variant") == "Ok"}
+                for eb, et in sorted(kit.result_err_edges(f, only_locals={t["dest"]["l"]})):
+                    hit = sorted(f.reachable(et) & okrets)
+                    ctx.oblig(not hit, None)
+                    if hit:
+                        ctx.violation("err-then-success|fn=%s|callee=%s" % (short(n), short(c)), sp_file_line(f.term(eb).get("sp")),
+                                      "in `%s` the error side of `%s`'s result can still reach a successful return (lines %s): a source that failed a validation stage "
+                                      "is reported as accepted by this command" % (short(n), short(c), f.path_lines(f.path(et, set(hit)) or [])))
     ctx.finish_rule()
 
     # ------------------------------------------------------------------ R1x: no rejection of a sub-command's own after validation
